@@ -157,14 +157,14 @@ def setup(concepts, spec):
     probes.install(['lindig'])
     cap = CAP[spec['tier']]
     attach.attach_ctor(concepts)
-    attach.attach(concepts.lattices.CollectionMixin, '__iter__', IterMonitor(cap))
-    attach.attach(concepts.lattices.CollectionMixin, '__len__', LenMonitor(cap))
+    attach.attach(concepts.lattices.Lattice, '__iter__', IterMonitor(cap))
+    attach.attach(concepts.lattices.Lattice, '__len__', LenMonitor(cap))
     try:
-        attach.attach(concepts.lattices.Data, '__init__', InitHook(cap))
+        attach.attach(concepts.lattices.Lattice, '__init__', InitHook(cap))
     except (KeyError, core.HarnessError):
         COL.count('hook_unavailable_Lattice.__init__')
     try:
-        attach.attach(concepts.contexts.LatticeMixin, '_lattice', RawGenerator(cap))
+        attach.attach(concepts.Context, '_lattice', RawGenerator(cap))
     except (KeyError, core.HarnessError):
         COL.count('hook_unavailable_Context._lattice')
     global POOL
